@@ -41,9 +41,10 @@ func (ep *Endpoint) minRTOCfg() uint32 {
 	return 100
 }
 
-// silenceLimit: a session that holds unsent or unacknowledged data transmits at
-// least this often whatever happens - a retransmission (timeout at most 60 s) or
-// a zero-window probe (interval at most 120 s).
+// silenceLimit: a session that holds unsent data and has nothing unacknowledged
+// in flight, or whose peer's window stands at zero, transmits at least this
+// often whatever happens - new data at its next flush, or a zero-window probe
+// (interval at most 120 s).
 const silenceLimit = 150 * time.Second
 
 // InstallBounds adds the always-on invariants to the simulator.
@@ -83,6 +84,14 @@ func (w *World) InstallBounds() {
 				continue
 			}
 			if now-last > silenceLimit {
+				// A segment in flight backs its own timer off without a cap (only the
+				// session's RTO estimate is capped at 60 s), so silence is inexcusable
+				// only if nothing unacknowledged is in flight - then the next flush
+				// must admit new data - or if the peer's window stands at zero - then
+				// a probe is due at least every 120 s.
+				if full := ep.State(); full.SndBufUnacked > 0 && full.RmtWnd != 0 {
+					continue
+				}
 				s.Fail("C02", "liveness", "sender-silent-with-backlog", "%s holds %d queued and %d in-flight segments and has handed nothing to the transport for %v (una=%d nxt=%d rmt_wnd=%d cwnd=%d rto=%d probe_wait=%d)", ep.Name, st.SndQueue, st.SndBuf, now-last, st.SndUna, st.SndNxt, st.RmtWnd, st.Cwnd, st.RxRto, st.ProbeWait)
 			}
 		}
